@@ -82,7 +82,7 @@ type Stats struct {
 	Steps, Switches, ClockJumps, VoluntaryClock, ForeignFired int
 	MapDecisions, MapNonSorted                                int
 	SelectMulti, MutexContended, ChanSendBlocked              int
-	Settled, TimersFired, BusyAdvance                         int
+	Settled, TimersFired, BusyAdvance, SortYields             int
 }
 
 type timerEv struct {
@@ -213,7 +213,7 @@ func (s *Sim) start(g *G, fn func()) {
 func idleKind(kind string) bool {
 	switch kind {
 	case "sleep", "sel-default", "sel-block", "foreign-fired", "frecv-block", "timer-new", "timer-stop", "timer-recv",
-		"timer-recv-block", "timer-recv-done", "yield", "atomic-load":
+		"timer-recv-block", "timer-recv-done", "yield", "atomic-load", "maprange", "sort-cmp":
 		return true
 	}
 	return false
